@@ -134,59 +134,105 @@ def rule_taint(ctx):
 
 
 def rule_header(ctx):
+    """HEADER: what RSAKey.decrypt returns for each class of decrypted block, decided by interpreting its
+    source over sample blocks (c01shared.run_method; the raw key operation, the hashes and the PRF are
+    replaced by stand-ins, the constant-time primitives by their meaning; nothing of the library runs):
+    a block `00 02 <at least 8 non-zero bytes> 00 M` gives M - for the empty, a short and the longest M - and
+    EVERY other block (wrong first or second byte, a zero among the first eight padding bytes, no
+    separator at all) gives the synthetic message: the tail of the PRF's "message" stream whose length is
+    the last PRF "length" candidate below the maximum - never an error, never part of the block.  A
+    publicly invalid ciphertext (the raw operation refuses it) gives None."""
+    import hashlib
+    import hmac
+    from ..condeval import Unknown, Raised
+    from .c01shared import run_method
+    from .common import size_primitives
     R = "C11.HEADER"
     fi = ctx.index.func(DEC)
-    body = []
-    for n in ast.walk(fi.node):
-        if isinstance(n, ast.FunctionDef):
-            body = n.body
-    seq = [norm(s) for s in fi.node.body]
+    K = 64
+    N = (1 << (8 * K - 1)) | 12345
+    CT = b"C" * K
+
+    def prf(base, key, label, out_len):
+        out, i = b"", 0
+        while len(out) < out_len // 8:
+            out += hashlib.sha256(b"prf" + bytes(key) + bytes(label) + bytes([i])).digest()
+            i += 1
+        return out[:out_len // 8]
+    max_sep = K - 10
+    lmask = (1 << max_sep.bit_length()) - 1
+    for letter in range(65, 91):
+        # a sample ciphertext whose synthetic message is long enough to tell it from anything else
+        CT = bytes([letter]) * K
+        kdk = hmac.new(b"KH", CT, "sha256").digest()
+        lens, msg = prf(None, kdk, b"length", 128 * 2 * 8), prf(None, kdk, b"message", K * 8)
+        synth_len = 0
+        for i in range(0, len(lens), 2):
+            c = ((lens[i] << 8) + lens[i + 1]) & lmask
+            if c < max_sep:
+                synth_len = c
+        if synth_len >= 12:
+            break
+    synthetic = msg[K - synth_len:]
+    hooks = dict(size_primitives(ctx))
+    hooks.update({"ct_lt_u32": lambda a, b: int((a & 0xffffffff) < (b & 0xffffffff)),
+                  "ct_isnonzero_u32": lambda a: int((a & 0xffffffff) != 0),
+                  "ct_neq_u32": lambda a, b: int((a & 0xffffffff) != (b & 0xffffffff)),
+                  "ct_eq_u32": lambda a, b: int((a & 0xffffffff) == (b & 0xffffffff)),
+                  "ct_le_u32": lambda a, b: int((a & 0xffffffff) <= (b & 0xffffffff)),
+                  "ct_lsb_prop_u16": lambda a: 0xffff if a & 1 else 0, "ct_lsb_prop_u8": lambda a: 0xff if a & 1 else 0,
+                  "hasPrivateKey": lambda base: True, "hasattr": lambda o, nm: True,
+                  "secureHash": lambda d, a: hashlib.sha256(bytes(d)).digest(),
+                  "secureHMAC": lambda k, d, a: hmac.new(bytes(k), bytes(d), a).digest(),
+                  "numberToByteArray": lambda n, l=None: int(n).to_bytes(l or (int(n).bit_length() + 7) // 8, "big"),
+                  "_dec_prf": prf})
+
+    def block(first=0, second=2, pad=None, m=b"hello world", sep=True):
+        pad = pad if pad is not None else b"\x11" * (K - 3 - len(m))
+        return bytes([first, second]) + pad + (b"\x00" if sep else b"\x33") + m
+    samples = [("valid, 11-byte message", block(), b"hello world"),
+               ("valid, empty message", block(m=b""), b""),
+               ("valid, longest message (8 padding bytes)", block(pad=b"\x11" * 8, m=b"M" * (K - 11)), b"M" * (K - 11)),
+               ("first byte 01", block(first=1), None), ("second byte 01", block(second=1), None),
+               ("second byte 03", block(second=3), None), ("leading bytes 02 00", block(first=2, second=0), None),
+               ("leading bytes 02 02", block(first=2, second=2), None), ("leading bytes 00 00", block(second=0), None), ("no separator", block(sep=False).replace(b"\x00", b"\x44", 1)[:K] if False else bytes([0, 2]) + b"\x55" * (K - 2), None)]
+    for pos in (2, 5, 9):
+        b_ = bytearray(block())
+        b_[pos] = 0
+        samples.append(("zero padding byte at offset %d" % pos, bytes(b_), None))
+    n = 0
+    for label, dec, want in samples:
+        h = dict(hooks)
+        h["_raw_private_key_op_bytes"] = lambda base, c, dec=dec: bytes(dec)
+        try:
+            kind, val = run_method(ctx, fi, [CT], {"self.n": N, "self.key_type": "rsa", "self._key_hash": b"KH",
+                                                    "self.d": 5, "self": "SELF", "__exc__": ctx.an.exc}, h)
+        except (Unknown, TypeError, AttributeError, KeyError, IndexError, ValueError) as e:
+            raise AnalysisError("%s: cannot interpret %s for `%s`: %s" % (R, fi.qname, label, e))
+        exp = want if want is not None else synthetic
+        n += 1
+        ok = kind == "return" and val is not None and bytes(val) == exp
+        ctx.check(R, ok, fi.qname, "decrypted block: " + label,
+                  "for a decrypted block that is %s, decrypt() %s; it must return %s" % (
+                      label, ("returns %r" % (bytes(val)[:16] if val is not None else None)) if kind == "return" else "ends with %s %s" % (kind, val),
+                      ("the message %r" % want[:16]) if want is not None else "the synthetic message (PRF-selected, %d bytes) and nothing else" % len(synthetic)),
+                  fi.loc(), what="decrypt(): " + label)
+    # a ciphertext the raw operation refuses is publicly invalid: None, no exception
+    h = dict(hooks)
+
+    def refuse(base, c):
+        raise Raised("ValueError('Message has incorrect length for the key size')")
+    h["_raw_private_key_op_bytes"] = refuse
     try:
-        i = seq.index("em_bytes = enumerate(dec_bytes)")
-    except ValueError:
-        raise AnalysisError("C11.HEADER: `em_bytes = enumerate(dec_bytes)` not found")
-    win = seq[i + 1:i + 5]
-    # `_, v = next(em_bytes)` or `v = next(em_bytes)[1]`: the next byte, under whatever name
-    pat = re.compile(r"^(?:\(?\w+, (\w+)\)? = next\(em_bytes\)|(\w+) = next\(em_bytes\)\[1\])$")
-    m1 = pat.match(win[0]) if len(win) == 4 else None
-    m2 = pat.match(win[2]) if len(win) == 4 else None
-    ok = bool(m1 and m2)
-    v1 = (m1.group(1) or m1.group(2)) if m1 else "?"
-    v2 = (m2.group(1) or m2.group(2)) if m2 else "?"
-    ok = ok and win[1] == "error_detected |= ct_isnonzero_u32(%s)" % v1 and \
-        win[3] == "error_detected |= ct_neq_u32(%s, 2)" % v2
-    ctx.check(R, ok, fi.qname, "first byte checked == 0x00 and second byte == 0x02, each on its own",
-              "the two leading bytes of the decrypted block must each be compared on their own (0x00 then "
-              "0x02) and OR-ed into error_detected; found %s (a combined test accepts blocks such as 02 00 / "
-              "02 02 as valid)" % win, fi.loc())
-    loops = [n for n in fi.node.body if isinstance(n, ast.For) and norm(n.iter) == "em_bytes"]
-    ok = len(loops) == 1 and not any(isinstance(x, (ast.Break, ast.Continue, ast.Return, ast.If)) for x in ast.walk(loops[0]))
-    ctx.check(R, ok, fi.qname, "separator search visits every remaining byte (no early exit)",
-              "the search for the 0x00 separator must inspect all bytes without break/continue/branch", fi.loc())
-    if loops:
-        src = [norm(s) for s in loops[0].body]
-        ok = "error_detected |= ct_lt_u32(pos, 10) & (1 ^ ct_isnonzero_u32(val))" in src and \
-            any(re.match(r"msg_start = msg_start & \(65535 \^ (\w+)\) \| pos \+ 1 & \1\b", s) for s in src)
-        ctx.check(R, ok, fi.qname, "short padding flagged; first separator position recorded by mask",
-                  "a zero byte among the first 8 padding bytes must set error_detected and the first "
-                  "separator position must be recorded by masking", fi.loc(loops[0]))
-    sel = [re.match(r"ret_msg_start = msg_start & \(65535 \^ (\w+)\) \| synth_msg_start & \1$", s) for s in seq]
-    sel = [m_.group(1) for m_ in sel if m_]
-    ok = "error_detected |= 1 ^ ct_isnonzero_u32(msg_start)" in seq and len(sel) == 1 and \
-        "%s = ct_lsb_prop_u16(error_detected)" % sel[0] in seq
-    ctx.check(R, ok, fi.qname, "missing separator is an error; start = real or synthetic by error_detected only",
-              "the returned start must be mask-selected between msg_start and synth_msg_start by "
-              "error_detected alone", fi.loc())
-    rdef = [n for n in fi.node.body if isinstance(n, ast.Assign) and norm(n.targets[0]) == "ret"]
-    ok = len(rdef) == 1 and "zip(dec_bytes[ret_msg_start:], message_random[ret_msg_start:])" in norm(rdef[0].value) \
-        and "x & not_mask | y & mask" in norm(rdef[0].value)
-    ctx.check(R, ok, fi.qname, "result mask-selected between real and synthetic message",
-              "the returned message must be selected byte-wise by mask between the decrypted and the "
-              "synthetic message", fi.loc())
-    syn = [s for s in seq if s.startswith("synth_msg_start =")]
-    ctx.check(R, syn == ["synth_msg_start = numBytes(n) - synth_length"], fi.qname,
-              "synthetic start derived from the ciphertext-keyed PRF only",
-              "the synthetic message start must come from the PRF-selected length", fi.loc())
+        kind, val = run_method(ctx, fi, [CT], {"self.n": N, "self.key_type": "rsa", "self._key_hash": b"KH", "self.d": 5,
+                                                "self": "SELF", "__exc__": ctx.an.exc}, h)
+    except (Unknown, TypeError, AttributeError, KeyError, IndexError, ValueError) as e:
+        raise AnalysisError("%s: cannot interpret %s for a refused ciphertext: %s" % (R, fi.qname, e))
+    ctx.check(R, kind == "return" and val is None, fi.qname, "publicly invalid ciphertext gives None",
+              "a ciphertext of the wrong length / not below the modulus must make decrypt() return None (outcome: %s %r)" % (kind, val),
+              fi.loc())
+    if n < 9:
+        raise AnalysisError("%s: only %d sample blocks evaluated" % (R, n))
 
 
 def _tree_outcomes(stmts, env, out):
